@@ -102,6 +102,23 @@ pub fn run(f: &[&str]) -> String {
             }
             if diffs.is_empty() { format!("same {}", b.split(' ').next().unwrap_or("")) } else { format!("DIFF-{}", diffs.join(",")) }
         }
+        // mk <hex message> : <serde_json::Error as serde::de::Error>::custom(msg) -> "<line> <col> <hex kept message>"   (model: Model/ErrMsg.v make_error)
+        // ms <hex message> : the Display text of that error
+        "mk" | "ms" if f.len() == 2 => {
+            let data = match unhex(f[1]) { Some(d) => d, None => return "BADCASE".into() };
+            let msg = match String::from_utf8(data) { Ok(s) => s, Err(_) => return "SKIP".into() };
+            let e = <serde_json::Error as serde::de::Error>::custom(&msg);
+            let full = e.to_string();
+            if f[0] == "ms" {
+                return if full.is_empty() { "-".into() } else { hex(full.as_bytes()) };
+            }
+            let suffix = format!(" at line {} column {}", e.line(), e.column());
+            let kept = if e.line() != 0 { full.strip_suffix(&suffix).unwrap_or("STRIP-FAILED").to_string() } else { full.clone() };
+            // the serializer-side custom goes through the same make_error
+            let e2 = <serde_json::Error as serde::ser::Error>::custom(&msg);
+            if e2.to_string() != full || e2.line() != e.line() || e2.column() != e.column() { return "SER-DE-CUSTOM-DIFFER".into(); }
+            format!("{} {} {}", e.line(), e.column(), if kept.is_empty() { "-".to_string() } else { hex(kept.as_bytes()) })
+        }
         _ => "BADCASE".into(),
     }
 }
